@@ -62,7 +62,7 @@ pub struct ScriptServer {
     handle: Option<std::thread::JoinHandle<()>>,
 }
 
-fn handle_conn(mut s: TcpStream, file: &[u8], script: &Mutex<Vec<SItem>>, log: &Mutex<Vec<(u64, u64)>>) {
+fn handle_conn(mut s: TcpStream, file: &[u8], script: &Mutex<Vec<SItem>>, log: &Mutex<Vec<(u64, u64)>>, frag: &[u64]) {
     let _ = s.set_read_timeout(Some(Duration::from_secs(5)));
     let mut req = vec![];
     let mut b = [0u8; 1024];
@@ -97,7 +97,18 @@ fn handle_conn(mut s: TcpStream, file: &[u8], script: &Mutex<Vec<SItem>>, log: &
     let send = |s: &mut TcpStream, clen: usize, body: &[u8]| {
         let head = format!("HTTP/1.1 206 Partial Content\r\nContent-Length: {}\r\nConnection: close\r\n\r\n", clen);
         let _ = s.write_all(head.as_bytes());
-        let _ = s.write_all(body);
+        // the body is sent in separately flushed pieces, cut at the absolute file offsets in `frag`
+        let mut start = 0usize;
+        for cut in frag {
+            let rel = cut.saturating_sub(a) as usize;
+            if rel > start && rel < body.len() {
+                let _ = s.write_all(&body[start..rel]);
+                let _ = s.flush();
+                std::thread::sleep(Duration::from_millis(4));
+                start = rel;
+            }
+        }
+        let _ = s.write_all(&body[start..]);
         let _ = s.flush();
     };
     match item {
@@ -121,6 +132,9 @@ fn handle_conn(mut s: TcpStream, file: &[u8], script: &Mutex<Vec<SItem>>, log: &
 
 impl ScriptServer {
     pub fn start(file: Vec<u8>, script: Vec<SItem>) -> Self {
+        Self::start_frag(file, script, vec![])
+    }
+    pub fn start_frag(file: Vec<u8>, script: Vec<SItem>, frag: Vec<u64>) -> Self {
         let listener = TcpListener::bind("127.0.0.1:0").unwrap();
         let port = listener.local_addr().unwrap().port();
         listener.set_nonblocking(true).unwrap();
@@ -131,7 +145,7 @@ impl ScriptServer {
             let script = Mutex::new(script);
             while !s2.load(Ordering::SeqCst) {
                 match listener.accept() {
-                    Ok((s, _)) => { let _ = s.set_nonblocking(false); handle_conn(s, &file, &script, &l2); }
+                    Ok((s, _)) => { let _ = s.set_nonblocking(false); let _ = s.set_nodelay(true); handle_conn(s, &file, &script, &l2, &frag); }
                     Err(_) => std::thread::sleep(Duration::from_micros(300)),
                 }
             }
@@ -162,7 +176,11 @@ fn err_class(e: &HttpReaderError) -> String {
 }
 
 pub fn run_http_chunks(file: &[u8], ranges: &[(u64, usize)], retries: u32, script: Vec<SItem>) -> (Vec<Result<Vec<u8>, String>>, Vec<(u64, u64)>) {
-    let srv = ScriptServer::start(file.to_vec(), script);
+    run_http_chunks_frag(file, ranges, retries, script, vec![])
+}
+
+pub fn run_http_chunks_frag(file: &[u8], ranges: &[(u64, usize)], retries: u32, script: Vec<SItem>, frag: Vec<u64>) -> (Vec<Result<Vec<u8>, String>>, Vec<(u64, u64)>) {
+    let srv = ScriptServer::start_frag(file.to_vec(), script, frag);
     let url = srv.url();
     let ranges: Vec<ChunkOffset> = ranges.iter().map(|(o, s)| ChunkOffset::new(*o, *s)).collect();
     let r = std::panic::catch_unwind(move || {
@@ -256,7 +274,16 @@ pub fn suite_http(dir: &str, seed: u64, thorough: bool, st: &mut Stats) {
                 _ => SItem::Ok,
             }).collect()
         };
-        let (items, log) = run_http_chunks(&file, &ranges, retries, script.clone());
+        // body fragmentation (must not matter): cuts at chunk boundaries (the critical places) and random offsets
+        let frag: Vec<u64> = if i % 3 == 0 { vec![] } else {
+            let mut f: Vec<u64> = ranges.iter().filter(|_| rng.chance(1, 2)).map(|(o, _)| *o).collect();
+            for _ in 0..rng.below(3) { f.push(rng.below(flen as u64)); }
+            f.sort();
+            f.dedup();
+            f
+        };
+        st.count(&format!("http/fragments/{}", frag.len().min(3)));
+        let (items, log) = run_http_chunks_frag(&file, &ranges, retries, script.clone(), frag);
         let line = format!("http {} {} {} {}", hex(&file), if ranges.is_empty() { "-".into() } else { ranges.iter().map(|(o, s)| format!("{}+{}", o, s)).collect::<Vec<_>>().join(",") }, retries, script_str(&script));
         st.evaluations += 1;
         st.count(&format!("http/{}", if faults { "faults" } else { "clean" }));
